@@ -50,3 +50,21 @@ def check_c08(prop, tier, replay_path):
 
 def check_c07_rules(prop, tier, replay_path):
     return run(prop, tier, replay_path, [("MCRSM", "MC_RSM_members.cfg", 900, 8)], merge=True)
+
+
+def check_c08_ondisk(prop, tier, replay):
+    """on-disk state machines: the snapshot a replica records for itself while the apply worker has a batch waiting (odsim)"""
+    import tvcheck
+    n, tr = (4, 30) if tier == "quick" else (12, 100)
+    batches = [{"first": k * tr, "traces": tr} for k in range(n)]
+    return tvcheck.tv_run(
+        prop, tier, replay, harness_dirs=["rsm"], pkg="internal/rsm", test="TestVerifOdsim",
+        trace_module="OnDiskSnapshotTrace", tag="OD-REPORT", count_tag="OD-COUNT", batches=batches,
+        env_of=lambda b, seed, out: {"VERIF_OUT": out, "VERIF_SEED": seed, "VERIF_FIRST": b["first"], "VERIF_TRACES": b["traces"]},
+        mc=(), level="model_checking", build_name="c08", merge_into_existing=True, max_workers=8, panic_ok=True,
+        what="on-disk state machine: the snapshot the replica recorded for itself is ahead of what the state machine had "
+             "persisted, or a replica restarted at the persisted state does not recover to the state of a replica that never stopped",
+        sig_of=lambda op, f: "C08:ondisk:%s" % op,
+        assumptions=["on-disk state machines at rsm level (odsim): real rsm.StateMachine.concurrentSave with the next batch of the "
+                     "apply worker queued behind the state machine's lock from inside the user's Sync; the record's OnDiskIndex vs "
+                     "what Sync persisted; restart at the persisted state + recovery from the record + the rest of the stream"])
